@@ -181,6 +181,8 @@ def unwide(x):
 def annot(a):
     if a == "wide spaces":
         return " // " + WIDE_TEXT
+    if a == "note *":                  # a block annotation whose text ends with an asterisk: closed by the "*/" right after it
+        return " /* note **/"
     if a == "collapsed text":          # written with runs of blanks and a tab: the catalog must hold the collapsed form
         return " //  collapsed  \t text  "
     return (" // " + a) if a else ""
